@@ -268,6 +268,7 @@ pub fn run(tier: Tier) -> i32 {
         Box::new(crate::families::scale_family(true)),
         Box::new(crate::families::unicode_family()),
         Box::new(crate::families::relation_family()),
+        Box::new(crate::families::huge_family(0)),
     ];
     let corpus = corpus_files();
     let mut items = Vec::new();
